@@ -11,6 +11,7 @@ non-UTF-8 arguments):
 The fuzzing runs with privileges dropped to uid/gid 65534 on a scratch tree owned by that uid."""
 import os
 import stat
+import subprocess
 
 import common
 import exprgen
@@ -282,7 +283,7 @@ def rand_printf(rng):
         r = rng.random()
         if r < 0.5:
             d = rng.choice(PRINTF_DIRECTIVES)
-            w = rng.choice(["", "", "5", "-5", "0", "-", "20", "-12", " ", "99999999999999999999", "300"])
+            w = rng.choice(["", "", "5", "-5", "0", "-", "20", "-12", " ", "99999999999999999999", "300", "65535", "65536", "-65536", "70000", "100000"])
             out.append("%" + w + d)
         elif r < 0.7:
             out.append(rng.choice(["\\n", "\\t", "\\0", "\\\\", "\\101", "\\a", "\\c", "\\é", "\\", "\\9", "\\18", "\\777"]))
@@ -301,8 +302,10 @@ def operand_for(rng, prim):
         "-regextype": ["emacs", "posix-basic", "posix-extended", "grep", "ed", "sed"], "-regex": [".*a", ".*/b.*", "r/\\(a\\|b\\)", ".*[.]txt", ".*x\\{1,2\\}"],
         "-user": ["root", "nobody", "0", "54321", "65534"], "-group": ["root", "nogroup", "0", "54322"], "-newer": ["r", "r/a", "r/b"],
         "-samefile": ["r/a", "r/b", "r/la", "r/missing"], "-maxdepth": ["0", "1", "2", "10"], "-mindepth": ["0", "1", "2"],
-        "-fprint": ["o1", "o2", "/nonexistent/x", "r", ""], "-fls": ["o3", "r/b"], "-fprint0": ["o4"], "-files0-from": ["names0", "-", "missing-list", "r/a"],
-        "-fstype": ["tmpfs", "ext4", "proc", ""], "-lname": ["*", "a", "../*"], "-newermt": ["2020-01-01", "jan 01, 2025 00:00:01", "jan 01, 2025", "x"],
+        "-fprint": ["o1", "o2", "/nonexistent/x", "r", "", "/dev/full"], "-fls": ["o3", "r/b", "/dev/full"], "-fprint0": ["o4", "/dev/full"], "-files0-from": ["names0", "-", "missing-list", "r/a"],
+        "-fstype": ["tmpfs", "ext4", "proc", ""], "-lname": ["*", "a", "../*"],
+        "-newermt": ["2020-01-01", "jan 01, 2025 00:00:01", "jan 01, 2025", "x", "jan 01, ٢٠٢٥", "jan ٠١, 2025", "jan 01, 2025 ٠٠:00:00", "jän 01, 2025",
+                     "jan 01, 99999 00:00:00", "feb 30, 2025", "jan 01, 0000", "jan 01, 2025 25:61:61"],
     }
     numeric = ["0", "1", "+1", "-1", "2", "+0", "-0", "5", "100", "54321", "+54321", "65534", "18446744073709551615"]
     if prim in ("-printf",):
@@ -314,6 +317,8 @@ def operand_for(rng, prim):
                 prim = vals
         if prim in valid:
             return rng.choice(valid[prim])
+        if prim.startswith("-newer") and prim.endswith("t"):
+            return rng.choice(valid["-newermt"])
         if prim.startswith("-newer"):
             return rng.choice(valid["-newer"])
         return rng.choice(numeric)
@@ -348,7 +353,7 @@ def mostly_valid_vector(rng):
                 return [p, v]
             return [p, operand_for(rng, p)]
         if r < 0.86:
-            return ["-fprintf", rng.choice(["o5", "o6"]), rand_printf(rng)]
+            return ["-fprintf", rng.choice(["o5", "o6", "/dev/full"]), rand_printf(rng)]
         e = rng.choice(["-exec", "-execdir"])
         cmd = rng.choice([common.REC, "true", "false", "/nonexistent/cmd", "rm"])
         if cmd == "rm":
@@ -387,7 +392,7 @@ def rand_vector(rng):
             if rng.random() < 0.95:
                 toks.append(operand_for(rng, p))
         elif r < 0.84:
-            toks += ["-fprintf", rng.choice(["o5", "", "r"]), rand_printf(rng)]
+            toks += ["-fprintf", rng.choice(["o5", "", "r", "/dev/full", "/dev/full"]), rand_printf(rng)]
         elif r < 0.93:
             e = rng.choice(["-exec", "-execdir"])
             cmd = rng.choice([common.REC, "true", "false", "/nonexistent/cmd", "rm", ""])
@@ -539,6 +544,47 @@ def targeted_worker(job):
                 st.inc("binary_runs")
                 if to or rc in (101, 134, -6, -11, -4, -7, -8):
                     st.violate("binary-panic-or-hang", None, {"args": args, "rc": rc, "timeout": to, "stderr": err[-400:]}, {"args": args, "via": "binary"})
+        # faults on the output side (stdout is a full device) and very deep nesting, through the binary
+        if k in (4, 5, 6, 7):
+            if os.path.exists(sb):
+                common.force_rmtree(sb)
+            os.makedirs(sb)
+            build_fuzz_tree(sb)
+            vectors = []
+            if k == 4:
+                vectors = [(["r", a] if isinstance(a, str) else ["r"] + a, "/dev/full") for a in
+                           ("-print", "-print0", ["-printf", "%p %s %u\\n"], "-ls", ["-fprintf", "/dev/full", "%p\\n"], ["-fprint", "/dev/full"],
+                            ["-fls", "/dev/full"], ["-print", "-printf", "x", "-ls"], ["-exec", "true", "{}", ";", "-print"])]
+            if k == 5:
+                for depth in (10, 200, 1000, 5000, 30000):
+                    vectors.append((["r"] + ["("] * depth + ["-true"] + [")"] * depth, None))
+                    vectors.append((["r"] + ["!"] * depth + ["-true"], None))
+                    vectors.append((["r"] + ["(", "-true", "-o"] * depth + ["-false"] + [")"] * depth, None))
+            if k == 6:
+                for n in (100, 5000, 40000):
+                    vectors.append((["r"] + ["-true", "-o"] * n + ["-false"], None))
+                    vectors.append((["r"] + ["-true", ","] * n + ["-print"], None))
+                    vectors.append((["r"] + ["-name", "a"] * n, None))
+            if k == 7:
+                vectors = [(["r", "-newermt", d], None) for d in ("jan 01, ٢٠٢٥", "jan ٠١, 2025", "jan 01, 2025 ٠٠:00:00", "jan 01, 99999", "")]
+            for argv, out_to in vectors:
+                so = open(out_to, "wb") if out_to else subprocess.DEVNULL
+                try:
+                    p_ = subprocess.run([common.FIND] + argv, cwd=sb, env=common.clean_env(), stdout=so, stderr=subprocess.PIPE, timeout=120,
+                                        preexec_fn=common.drop_to(NOBODY))
+                    rc, err, to = p_.returncode, p_.stderr, False
+                except subprocess.TimeoutExpired:
+                    rc, err, to = None, b"", True
+                finally:
+                    if out_to:
+                        so.close()
+                st.inc("evaluations")
+                st.inc("binary_runs")
+                st.inc("output_fault_runs" if out_to else "deep_or_long_expression_runs")
+                if to or rc in (101, 134, -6, -11, -4, -7, -8):
+                    shown = argv if len(argv) < 12 else argv[:4] + ["... %d tokens ..." % len(argv)] + argv[-2:]
+                    st.violate("binary-panic-or-hang", None, {"args": shown, "stdout": out_to, "rc": rc, "timeout": to, "stderr": err[-300:]},
+                               {"args": shown, "stdout": out_to, "via": "binary"})
         # non-UTF-8 arguments (binary only: the library takes &str)
         if k < 4:
             if os.path.exists(sb):
@@ -629,5 +675,5 @@ def run(ctx):
         ctx.stats.notes.append("valgrind not available: memcheck replay skipped")
     for c in CORRUPTIONS:
         ctx.require("corruption:" + c, 20)
-    for key in ("targeted_runs", "binary_runs", "non_utf8_vectors", "vectors_with_removal_action", "exit_status:0", "exit_status:nonzero"):
+    for key in ("targeted_runs", "binary_runs", "non_utf8_vectors", "output_fault_runs", "deep_or_long_expression_runs", "vectors_with_removal_action", "exit_status:0", "exit_status:nonzero"):
         ctx.require(key, 5)
